@@ -1,7 +1,7 @@
 (* Tables.v — audited copies of code-derived tables the model needs structurally.
    Each has an agreement obligation against coq/Generated in Proofs/Agree_*.v. *)
 From Coq Require Import String.
-From Statham.Model Require Import Str.
+From Statham.Model Require Import Str Json Elem.
 Local Open Scope string_scope.
 Local Open Scope list_scope.
 
@@ -26,8 +26,12 @@ Definition element_positions : list (str * str) :=
    (s_ "elements", s_ "elements");     (* CompositionElement( *elements ) *)
    (s_ "element", s_ "element")].      (* Not(element), _Property(element) *)
 
-(* ---- constructor signatures (keyword parameters each element class accepts) ---- *)
-From Statham.Model Require Import Json Elem.
+(* ---- constructor signatures ---- *)
+Inductive pkind := PosOrKw | VarPos | KwOnly | VarKw.
+Inductive sigdefault := SDRequired | SDNotPassed | SDJson (j : json).
+(* (parameter name, kind, default, annotation mentions Element/_Property) *)
+Definition sigrow := (str * pkind * sigdefault * bool)%type.
+Definition sig_names (l : list sigrow) : list str := map (fun r => fst (fst (fst r))) l.
 
 Definition sig_element : list str :=
   map s_ ["default"; "const"; "enum"; "items"; "additionalItems"; "minItems"; "maxItems";
@@ -69,3 +73,59 @@ Definition unsupported_keywords : list str :=
   map s_ ["$defs"; "if"; "then"; "else"; "unevaluatedItems"; "unevaluatedProperties"].
 (* the keys parse_element cleans with _parse_literal *)
 Definition literal_keys : list str := map s_ ["default"; "const"; "enum"].
+
+(* ---- validators ---- *)
+From Statham.Model Require Import PyNum.
+
+(* (keyword, subject is len(value), comparison that raises ValidationError) *)
+Definition thresholds : list (str * bool * cmpop) :=
+  [(s_ "exclusiveMaximum", false, OpGe); (s_ "exclusiveMinimum", false, OpLe);
+   (s_ "maxItems", true, OpGt); (s_ "maxLength", true, OpGt); (s_ "maxProperties", true, OpGt);
+   (s_ "maximum", false, OpGt); (s_ "minItems", true, OpLt); (s_ "minLength", true, OpLt);
+   (s_ "minProperties", true, OpLt); (s_ "minimum", false, OpLt)].
+
+(* (validator class, type guard, keywords) *)
+Definition validator_table : list (str * list str * list str) :=
+  [(s_ "AdditionalItems", [s_ "list"], [s_ "items"; s_ "additionalItems"]);
+   (s_ "AdditionalProperties", [s_ "dict"], [s_ "__properties__"]);
+   (s_ "Const", [], [s_ "const"]);
+   (s_ "Contains", [s_ "list"], [s_ "contains"]);
+   (s_ "Dependencies", [s_ "dict"], [s_ "dependencies"]);
+   (s_ "Enum", [], [s_ "enum"]);
+   (s_ "ExclusiveMaximum", [s_ "int"; s_ "float"], [s_ "exclusiveMaximum"]);
+   (s_ "ExclusiveMinimum", [s_ "int"; s_ "float"], [s_ "exclusiveMinimum"]);
+   (s_ "Format", [s_ "str"], [s_ "format"]);
+   (s_ "InstanceOf", [], []);
+   (s_ "MaxItems", [s_ "list"], [s_ "maxItems"]);
+   (s_ "MaxLength", [s_ "str"], [s_ "maxLength"]);
+   (s_ "MaxProperties", [s_ "dict"], [s_ "maxProperties"]);
+   (s_ "Maximum", [s_ "int"; s_ "float"], [s_ "maximum"]);
+   (s_ "MinItems", [s_ "list"], [s_ "minItems"]);
+   (s_ "MinLength", [s_ "str"], [s_ "minLength"]);
+   (s_ "MinProperties", [s_ "dict"], [s_ "minProperties"]);
+   (s_ "Minimum", [s_ "int"; s_ "float"], [s_ "minimum"]);
+   (s_ "MultipleOf", [s_ "int"; s_ "float"], [s_ "multipleOf"]);
+   (s_ "NoMatch", [], []);
+   (s_ "Pattern", [s_ "str"], [s_ "pattern"]);
+   (s_ "PropertyNames", [s_ "dict"], [s_ "propertyNames"]);
+   (s_ "Required", [s_ "dict"], [s_ "required"]);
+   (s_ "UniqueItems", [s_ "list"], [s_ "uniqueItems"])].
+
+Definition skipped_validators : list str := [s_ "InstanceOf"; s_ "NoMatch"].
+Definition object_validators : list str :=
+  map s_ ["type_validator"; "Required"; "AdditionalProperties"; "MinProperties"; "MaxProperties";
+          "PropertyNames"; "Const"; "Enum"; "Dependencies"].
+
+(* ---- parser tables ---- *)
+Definition subparser_keys : list str :=
+  map s_ ["properties"; "items"; "patternProperties"; "propertyNames"; "contains"; "dependencies"].
+Definition cls_args_keys : list str :=
+  map s_ ["patternProperties"; "minProperties"; "maxProperties"; "propertyNames"; "dependencies";
+          "const"; "enum"; "default"; "description"].
+Definition type_mapping_names : list (str * str) :=
+  [(s_ "array", s_ "Array"); (s_ "boolean", s_ "Boolean"); (s_ "integer", s_ "Integer");
+   (s_ "null", s_ "Null"); (s_ "number", s_ "Number"); (s_ "string", s_ "String")].
+Definition json_type_mapping : list (str * str) :=
+  [(s_ "Array", s_ "array"); (s_ "Boolean", s_ "boolean"); (s_ "Integer", s_ "integer");
+   (s_ "Null", s_ "null"); (s_ "ObjectMeta", s_ "object"); (s_ "Number", s_ "number");
+   (s_ "String", s_ "string")].
